@@ -27,7 +27,7 @@ from simkit.net import ConnectPlan
 ID = "C13"
 LEVEL = "exploration"
 ENGINE = "simkit/proxy-world"
-QUICK_RUNS = 16000
+QUICK_RUNS = 20000
 QUICK_BUDGET_S = 150
 THOROUGH_BUDGET_S = 900
 CHUNK = 50
